@@ -5,6 +5,9 @@ import GudhiVerif.CubBridge
 import GudhiVerif.CubOrder
 import GudhiVerif.CubValue
 import GudhiVerif.CubPeriodic
+import GudhiVerif.CubPeriodic2
+import GudhiVerif.CubPeriodic3
+import GudhiVerif.CubPeriodic4
 /-! # C13 — cubical complexes are valid filtered cell complexes with correct incidences
 
 Proved: `CubicalProto.bd_bd` (∂∂ = 0 for the graded-Leibniz boundary on counter vectors, every dimension),
@@ -23,15 +26,18 @@ and `Shape.boundary` commutes with the quotient map on positions, for both pair 
 `CubBridge.boundary_true_swap` — the periodic class lists every pair in the other order; hence
 **`CubBridge.flat_bd_bd_all`** — ∂∂ = 0 on flat positions for every shape with positive radices, every subset of periodic
 directions, both classes, every position.
-`CubBridge.boundary_coboundary` — boundary and coboundary of the model are converse relations (no periodic direction).
-`CubBridge.valueTop_mono`, `CubBridge.valueVert_mono` — both value impositions (min over the top cells containing the cell,
-max over its vertices) are lower-star; `CubBridge.order_perm`, `order_nondecreasing`, `order_faces_first_top/_vert` — the
-filtration order of the model lists every position once, values never decrease, every face precedes the cell.
+`CubBridge.boundary_face_all` — every listed face is a position of the bitmap of dimension one less;
+**`CubBridge.boundary_coboundary_all`** — boundary and coboundary of the model are converse relations;
+`CubBridge.valueTop_mono_gen`, `valueVert_mono_gen` — both value impositions (min over the top cells containing the cell, max
+over its vertices) are lower-star; `CubBridge.order_perm`, `order_nondecreasing`, **`order_faces_first_top_gen` / `_vert_gen`** —
+the filtration order lists every position once, values never decrease, every face precedes the cell.  All of these for
+every shape with positive radices, every subset of periodic directions (wrap-around faces and cofaces included) and both
+classes; the versions without `_all` / `_gen` are the earlier special cases without periodic directions.
 
-**Partial** (`C13_partial`): coboundary, value impositions and faces-first order *with periodic directions* are tied to the
-code by the correspondence only (and by the harness evaluating ∂∂ = 0 and boundary/coboundary duality on the real output);
-that "top cells containing the cell" / "vertices of the cell" are `topDigits` / `vertDigits` is the geometric reading of the
-model, stated in the property's own words. -/
+**Partial** (`C13_partial`): what remains outside Lean is the geometric reading of the model (that `topDigits` / `vertDigits`
+list the top cells containing the cell / its vertices, and that `boundary` lists the geometric faces — stated in the
+property's own words and checked by the independent Python geometric specification) and the persistence clause, which is
+compared with the reference reduction of C02/C05. -/
 namespace C13
 open CubModel
 
